@@ -439,7 +439,19 @@ pub fn explore(
                         in_flight.fetch_sub(1, Ordering::SeqCst);
                         continue;
                     }
-                    let x = runner.run(body, &prefix, &expect);
+                    // a panic of the harness itself (body set-up, engine) must end the exploration
+                    // as a machinery error, not leave the other workers waiting for this one
+                    let x = match std::panic::catch_unwind(std::panic::AssertUnwindSafe(|| runner.run(body, &prefix, &expect))) {
+                        Ok(x) => x,
+                        Err(e) => {
+                            let loc = crate::util::take_last_panic_loc().unwrap_or_default();
+                            rep.machinery_error(&format!("{}: the harness panicked while running schedule {:?} at {loc}: {}", body.name(), prefix, crate::util::panic_message(&e)));
+                            work.lock().unwrap().clear();
+                            in_flight.fetch_sub(1, Ordering::SeqCst);
+                            runner = Runner::new(n_tasks);
+                            continue;
+                        }
+                    };
                     executions.fetch_add(1, Ordering::Relaxed);
                     let pre = x.preemptions();
                     if pre <= bound {
